@@ -327,10 +327,10 @@ fn fileconfig_case(basename: &str, discr: Option<&str>, suffix: Option<&str>, st
 
 // ---------------------------------------------------------------- (v) pre-populated directories
 
-const NEAR: [&str; 22] = [
+const NEAR: [&str; 24] = [
     "app", "appé.log", "app_.log", "app_r.log", "app_r1.log", "app_r12.log", "app_rX.log", "app_r00001_old.log", "app_r00001.log.gz.gz", "app_r2024.log",
     "app_r9999-99-99_99-99-99.log", "app_r2024-05-15_12-30-10.restart-", "app_r2024-05-15_12-30-10.restart-abcd.log", "app_r2024-05-15_12-30-10.restart-99999.log",
-    "app_rCURRENT.log.gz", "app_r4294967296.log", "app_r99999.log", "app_r100000.log", "app_é.log", "app_r\u{0301}.log", "app_r0000é.log", "app_r00000.log.gz",
+    "app_rCURRENT.log.gz", "app_r4294967296.log", "app_r4294967295.log", "app_r4294967294.log", "app_r99999.log", "app_r100000.log", "app_é.log", "app_r\u{0301}.log", "app_r0000é.log", "app_r00000.log.gz",
 ];
 
 fn prepop_case(name: &str, naming: NamingK, clean: CleanK, append: bool, as_dir: bool) -> Result<(), (String, String)> {
